@@ -39,6 +39,7 @@ RULE += (" Rule names also begin with the letters of an operator keyword (notabl
 RULE += (" Correlation rules carry up to two aliases, also named like fields the pipeline renames, in both key orders.")
 RULE += (" A third of the backends quotes every field name: group-by, fields list, alias targets and the condition field must then be quoted alike.")
 RULE += (" Alias maps may name a referenced rule by its other identifier (id where the rule list says the name and vice versa).")
+RULE += (" The condition field may name an alias of the rule; alias names are not renamed by field pipelines, in group-by and in the condition alike.")
 ASSUMPTIONS = [
     "solo queries of referenced rules are computed by the same backend class on fresh objects (isolation, not semantics)",
     "the unit lengths s/m/h/d/w/M/y = 1/60/3600/86400/604800/2629746/31556952 seconds",
@@ -231,7 +232,8 @@ def check_case(case: dict) -> Outcome:
     want_field = ""
     if cd and cd.get("field") is not None:
         f = cd["field"]
-        want_field = str([map_field(x, pspec) for x in f]) if isinstance(f, list) else map_field(f, pspec)
+        mf = (lambda x: x if x in aliases else map_field(x, pspec))   # alias names are never renamed (like in group-by)
+        want_field = str([mf(x) for x in f]) if isinstance(f, list) else mf(f)
     elif not ext:
         want_field = "None"  # no field given: the template receives the (absent) field as is
     if not ext and agg["field"][0] != (qf(want_field) if cd and isinstance(cd.get("field"), str) else want_field):
@@ -396,7 +398,8 @@ def cases(draw):
     else:
         c["condition"] = {op: draw(st.integers(0, 100))}
         if ctype != "event_count":
-            c["condition"]["field"] = draw(st.sampled_from(["cnt", "user", "other"]))
+            # also an alias of the rule: the condition then counts the normalised field, whose name no pipeline renames
+            c["condition"]["field"] = draw(st.sampled_from(["cnt", "user", "other"] + sorted(c.get("aliases", {}))))
         if ctype == "value_percentile":
             c["condition"]["percentile"] = draw(st.sampled_from([0, 0, 1, 50, 95, 99, 100]))
     corrs = [{"title": "corr_main", "name": "cmain", "correlation": c}]
